@@ -642,6 +642,11 @@ fn insert_imported_namespace(
         None => {
             let mut syms = vec![];
 
+            // A file that imports itself already has all its own items.
+            if Rc::ptr_eq(&current_ns, &imported_ns) {
+                return syms;
+            }
+
             // Load all the public items into the current namespace.
             let imported_ns = imported_ns.borrow();
             for (sym, value) in &imported_ns.values {
